@@ -353,10 +353,10 @@ theorem fallback_orig_to_fixed {ign : Bool} {sop : Uid} {pcs : List Pc} {pc : Pc
     fallback true ign sop pcs = some pc := by
   unfold fallback at h ⊢
   split at h
-  · next x hx => cases h; simp [hx]
+  · next x hx => cases h; simp
   · next hnone =>
     simp only [Bool.false_eq_true, if_false] at h
-    simp only [hnone, if_true]
+    simp only [if_true]
     exact find?_filter_of_find? h hc
 
 theorem fallback_orig_none {ign : Bool} {sop : Uid} {pcs : List Pc}
@@ -366,7 +366,7 @@ theorem fallback_orig_none {ign : Bool} {sop : Uid} {pcs : List Pc}
   · cases h
   · next hnone =>
     simp only [Bool.false_eq_true, if_false] at h
-    simp only [hnone, if_true]
+    simp only [if_true]
     rw [List.find?_eq_none] at h ⊢
     intro x hx
     exact h x (List.mem_filter.mp hx).1
@@ -542,6 +542,28 @@ theorem session_fail_first {fixed : Bool} {reg : Reg} {pcs : List Pc} {ign never
       simp [hp, Except.toBool, ih.1, ih.2, hpf]
     · next e he =>
       simp [he, Except.toBool]
+
+/-! ### what is proposed -/
+
+/-- Every file's own (SOP class, transfer syntax) pair is proposed, and — unless
+`--never-transcode` — Explicit and Implicit VR Little Endian for its class. -/
+theorem proposals_cover {never : Bool} {files : List FileInfo} {f : FileInfo} (h : f ∈ files) :
+    (f.sop, f.ts) ∈ proposals never files ∧
+    (never = false → (f.sop, evrle) ∈ proposals never files ∧ (f.sop, ivrle) ∈ proposals never files) := by
+  unfold proposals
+  refine ⟨List.mem_flatMap.mpr ⟨f, h, by simp⟩, ?_⟩
+  intro hn
+  subst hn
+  exact ⟨List.mem_flatMap.mpr ⟨f, h, by simp⟩, List.mem_flatMap.mpr ⟨f, h, by simp⟩⟩
+
+/-- Nothing is proposed for a SOP class without a file: with an acceptor that only answers what was
+proposed, every accepted context belongs to the class of some file of the run. -/
+theorem proposals_only_for_files {never : Bool} {files : List FileInfo} {q : Uid × Uid}
+    (h : q ∈ proposals never files) : ∃ f ∈ files, q.1 = f.sop := by
+  unfold proposals at h
+  obtain ⟨f, hf, hq⟩ := List.mem_flatMap.mp h
+  refine ⟨f, hf, ?_⟩
+  cases never <;> simp at hq <;> rcases hq with rfl | rfl | rfl <;> rfl
 
 /-! ### non-vacuity -/
 
